@@ -26,7 +26,7 @@ type sgEdge struct {
 
 type sgTok struct {
 	Type  int64
-	Site  *ssa.Store
+	Site  ssa.Instruction
 	Facts []ssax.Fact
 }
 
@@ -111,13 +111,53 @@ func buildStateGraph(p *core.Program, a *Anchors, r *core.Result) *stateGraph {
 	}
 	stateField := a.Fields["xss.state.state"]
 	typeField := a.Fields["xss.state.tokenType"]
-	for fn, n := range g.Nodes {
+	// parametric helpers: functions that store one of their parameters into the token
+	// type or the state variable (`emit(tokenType, …)`, `finishAtEOF(tokenType)`); they
+	// are not states of their own: their effect is attributed to each call site
+	parametric := map[*ssa.Function]bool{}
+	for _, fn := range p.SourceFuncs(nil) {
+		for _, b := range fn.Blocks {
+			for _, ins := range b.Instrs {
+				st, ok := ins.(*ssa.Store)
+				if !ok {
+					continue
+				}
+				fr, ok := ssax.AsFieldAddr(st.Addr)
+				if !ok || fr.Struct != g.stName || (fr.Field != stateField && fr.Field != typeField) {
+					continue
+				}
+				if _, isParam := st.Val.(*ssa.Parameter); isParam {
+					parametric[fn] = true
+				}
+			}
+		}
+	}
+	for fn := range parametric {
+		delete(g.Nodes, fn)
+	}
+	type binding map[*ssa.Parameter]ssa.Value
+	var scan func(fn *ssa.Function, owner *ssa.Function, n *sgNode, bind binding, prefix []ssax.Fact, site ssa.Instruction, depth int)
+	scan = func(fn *ssa.Function, owner *ssa.Function, n *sgNode, bind binding, prefix []ssax.Fact, site ssa.Instruction, depth int) {
+		resolve := func(v ssa.Value) ssa.Value {
+			if prm, ok := v.(*ssa.Parameter); ok {
+				if a, ok := bind[prm]; ok {
+					return a
+				}
+			}
+			return v
+		}
+		at := func(ins ssa.Instruction) ssa.Instruction {
+			if site != nil {
+				return site
+			}
+			return ins
+		}
 		for _, b := range fn.Blocks {
 			var facts []ssax.Fact
 			got := false
 			getFacts := func() []ssax.Fact {
 				if !got {
-					facts = ssax.Facts(b)
+					facts = append(append([]ssax.Fact{}, prefix...), ssax.Facts(b)...)
 					got = true
 				}
 				return facts
@@ -140,10 +180,11 @@ func buildStateGraph(p *core.Program, a *Anchors, r *core.Result) *stateGraph {
 						bad := false
 						var collect func(v ssa.Value, facts []ssax.Fact, depth int)
 						collect = func(v ssa.Value, facts []ssax.Fact, depth int) {
+							v = resolve(v)
 							if ph, isPhi := v.(*ssa.Phi); isPhi && depth < 4 {
 								for i, ev := range ph.Edges {
 									pb := ph.Block().Preds[i]
-									fs := append([]ssax.Fact{}, ssax.Facts(pb)...)
+									fs := append(append([]ssax.Fact{}, prefix...), ssax.Facts(pb)...)
 									if iff, ok := pb.Instrs[len(pb.Instrs)-1].(*ssa.If); ok && pb.Succs[0] != pb.Succs[1] {
 										fs = append(fs, ssax.ExpandCond(iff.Cond, pb.Succs[0] == ph.Block())...)
 									}
@@ -164,29 +205,40 @@ func buildStateGraph(p *core.Program, a *Anchors, r *core.Result) *stateGraph {
 							continue
 						}
 						for _, ch := range choices {
-							e := &sgEdge{From: fn, To: ch.to, Deferred: true, Site: x, Facts: ch.facts}
+							e := &sgEdge{From: owner, To: ch.to, Deferred: true, Site: at(x), Facts: ch.facts}
 							n.Out = append(n.Out, e)
 							g.Nodes[ch.to].In = append(g.Nodes[ch.to].In, e)
 						}
 					}
 					if fr.Field == typeField {
-						k, ok := ssax.ConstInt(x.Val)
+						k, ok := ssax.ConstInt(resolve(x.Val))
 						if !ok {
 							r.Fail("G", core.QualName(fn), "store tokenType = "+x.Val.String(), p.Pos(x.Pos()), "non-constant token type (undecided)")
 							continue
 						}
-						n.Toks = append(n.Toks, sgTok{Type: k, Site: x, Facts: getFacts()})
+						n.Toks = append(n.Toks, sgTok{Type: k, Site: at(x), Facts: getFacts()})
 					}
 				case ssa.CallInstruction:
 					to := x.Common().StaticCallee()
 					if to != nil && g.Nodes[to] != nil {
-						e := &sgEdge{From: fn, To: to, Deferred: false, Site: x, Facts: getFacts()}
+						e := &sgEdge{From: owner, To: to, Deferred: false, Site: at(x), Facts: getFacts()}
 						n.Out = append(n.Out, e)
 						g.Nodes[to].In = append(g.Nodes[to].In, e)
+					} else if to != nil && parametric[to] && depth < 3 {
+						b2 := binding{}
+						for i, prm := range to.Params {
+							if i < len(x.Common().Args) {
+								b2[prm] = resolve(x.Common().Args[i])
+							}
+						}
+						scan(to, owner, n, b2, getFacts(), at(x), depth+1)
 					}
 				}
 			}
 		}
+	}
+	for fn, n := range g.Nodes {
+		scan(fn, fn, n, nil, nil, nil, 0)
 	}
 	// start states: SCCP of init for each flag constant of its switch
 	if initFn != nil {
